@@ -169,10 +169,11 @@ PnMagOk(p) == \A i \in 1..Len(p) : DLe(DAbs(p[i]), DPow2(PnLim))
 PnIsLattice(p) == \A i \in 1..Len(p) : DIsInt(p[i])
 \* bounds from the final scale factors.  The gradients are scaled by the tangent line of 1/sqrt at 0.7
 \* (taylorInvSqrt = 1.79284291400159 - 0.85373472095314 s), which lies below 1/sqrt(s) and is positive for s < 2.1: the scaled
-\* gradients have length <= 1.  perlin: a convex combination (fade in [0, 1]) of dot(g, offset), |offset| <= sqrt(L):
-\*   2.3 sqrt 2 = 3.253, 2.2 sqrt 3 = 3.811, 2.2 * 2 = 4.4
+\* gradients have length <= 1.  perlin = S sum_c w_c g_c . d_c with product weights w_c (fade in [0, 1]) and corner offsets d_c:
+\*   |sum| <= sum w_c |d_c| <= sqrt(sum w_c |d_c|^2) (Jensen) = sqrt(sum over the axes of (1 - f(t)) t^2 + f(t) (1 - t)^2) <= sqrt(L / 4)
+\*   (the axis term is largest, 1/4, at t = 1/2):  2.3 sqrt(2)/2 = 1.6264, 2.2 sqrt(3)/2 = 1.9053, 2.2 * 1 = 2.2
 \* simplex: K * (L+1) corners * max_s (R - s)^4 sqrt(s) = K (L+1) (8R/9)^4 sqrt(R/9):  130*3*0.009197 = 3.587, 42*4*0.020890 = 3.510, 49*5*0.020890 = 5.118
-PnPerlinBound(L) == IF L = 2 THEN DMk(FALSE, <<27>>, -3) ELSE IF L = 3 THEN DMk(FALSE, <<31>>, -3) ELSE DMk(FALSE, <<9>>, -1)
+PnPerlinBound(L) == IF L = 2 THEN DMk(FALSE, <<209>>, -7) ELSE IF L = 3 THEN DMk(FALSE, <<61>>, -5) ELSE DMk(FALSE, <<9>>, -2)
 PnSimplexBound(L) == IF L = 4 THEN DMk(FALSE, <<21>>, -2) ELSE DMk(FALSE, <<29>>, -3)
 \* Lipschitz constants with respect to the 1-norm of the displacement.
 \*   perlin, per axis: S (1 + max fade' * 2 max|n|) = S (1 + 1.875 * 2 sqrt L): 14.5, 16.5, 18.7
@@ -189,6 +190,8 @@ PnSimplexJump(L) == IF L = 3 THEN DMk(FALSE, <<213>>, -15) ELSE IF L = 4 THEN DM
 \* simplex(dvec3): with the 12-digit constant 0.142857142857 < 1/7 the hash values 49, 98, ... miss mod 49 and produce the gradient
 \* (-3/14, -27/14, -6/7), |p|^2 = 4.5, scaled by |taylorInvSqrt(4.5)| = 2.049: length 4.35 instead of <= 1
 PnBrokenGrad == DMk(FALSE, <<35>>, -3)               \* 4.375
+\* simplex(vec3): x0.x = x0.y = x0.z  <=>  the differences of the coordinates are integers (i = floor(p + s) shifts all three alike)
+PnDiagTie(p) == Len(p) = 3 /\ DIsInt(DSub(p[1], p[2])) /\ DIsInt(DSub(p[2], p[3]))
 
 \* ---- perlin(vec2), float, transcribed operation by operation (fields of F32; every operation correctly rounded, as compiled without
 \* contraction).  Domain: finite coordinates (|.| <= 2^20 by the caller)
